@@ -443,6 +443,7 @@ impl<'a, Input: InputIndexer> MatchAttempter<'a, Input> {
         debug_assert!(self.states.is_empty(), "Should be no states");
         self.states.push(init_state.clone());
         while !self.states.is_empty() {
+            sim_step!(PK_STEP, self.states.len());
             let s = self.states.last_mut().unwrap();
             match try_match_state(self.re, &input, s, dir) {
                 StateMatch::Fail => {
@@ -508,6 +509,7 @@ impl<Input: InputIndexer> exec::MatchProducer for PikeVMExecutor<'_, Input> {
 
         // Check if this is an anchored regex - if so, only try matching at the current position
         if matches!(re.start_pred, StartPredicate::StartAnchored) {
+            sim_step!(PK_START, 0);
             let mut state = State {
                 pos,
                 ip: 0,
@@ -547,6 +549,7 @@ impl<Input: InputIndexer> exec::MatchProducer for PikeVMExecutor<'_, Input> {
         };
         loop {
             let start = state.pos;
+            sim_step!(PK_START, 0);
             if self
                 .matcher
                 .try_at_pos(self.input, &mut state, Forward::new())
